@@ -1358,6 +1358,66 @@ pub fn c08(tier: Tier, caps: &Caps) -> Vec<FamilyReport> {
         &|i| c08_after_connack_rx(&mb[(i / 2) as usize], i % 2 == 1, WIDE_RX),
         &|i| json!({"phase": "after-connack", "bytes": mr::hex(&mb[(i / 2) as usize]), "fragmented": i % 2 == 1, "rx": WIDE_RX}),
     ));
+    // property identifiers are variable byte integers: every canonical two-byte (and some three-byte) identifier whose
+    // LOW BYTE is a defined property, followed by a well-formed value of that property - all undefined, all malformed
+    let mut wide_ids: Vec<(Vec<u8>, bool)> = Vec::new();
+    for id in mr::ALL_PROP_IDS {
+        let value: Vec<u8> = match mr::prop_type(id as u32).unwrap() {
+            mr::PType::Byte => vec![1],
+            mr::PType::U16 => vec![0, 5],
+            mr::PType::U32 => vec![0, 0, 0, 5],
+            mr::PType::Var => vec![5],
+            mr::PType::Str => vec![0, 1, b'a'],
+            mr::PType::Bin => vec![0, 1, 7],
+            mr::PType::Pair => vec![0, 1, b'k', 0, 1, b'v'],
+        };
+        for m in (1u32..=63).chain([64, 65, 255, 256, 8191]) {
+            let v = id as u32 + 256 * m;
+            let mut block = Vec::new();
+            mr::put_varint(&mut block, v);
+            block.extend_from_slice(&value);
+            let mut props = Vec::new();
+            mr::put_varint(&mut props, block.len() as u32);
+            props.extend_from_slice(&block);
+            // PUBLISH QoS 0, topic "t", payload "x"
+            let mut body = vec![0x00, 0x01, b't'];
+            body.extend_from_slice(&props);
+            body.push(b'x');
+            let mut pk = vec![0x30];
+            mr::put_varint(&mut pk, body.len() as u32);
+            pk.extend_from_slice(&body);
+            wide_ids.push((pk, false));
+            // PUBACK for identifier 1 with a property block
+            let mut body = vec![0x00, 0x01, 0x00];
+            body.extend_from_slice(&props);
+            let mut pk = vec![0x40];
+            mr::put_varint(&mut pk, body.len() as u32);
+            pk.extend_from_slice(&body);
+            wide_ids.push((pk, false));
+            // CONNACK
+            let mut body = vec![0x00, 0x00];
+            body.extend_from_slice(&props);
+            let mut pk = vec![0x20];
+            mr::put_varint(&mut pk, body.len() as u32);
+            pk.extend_from_slice(&body);
+            wide_ids.push((pk, true));
+        }
+    }
+    out.push(sweep(
+        "C08-property-identifiers-of-more-than-one-byte",
+        "C08",
+        wide_ids.len() as u64,
+        caps,
+        json!({"cases": "for each of the 27 defined property identifiers P and m in 1..=63, 64, 65, 255, 256, 8191: the identifier P + 256*m (a canonical two- or three-byte variable byte integer) followed by a well-formed value of P, in a PUBLISH, a PUBACK and a CONNACK; none of these identifiers is defined", "rx": C08_RX}),
+        &|i| {
+            let (b, as_connack) = &wide_ids[i as usize];
+            if *as_connack { c08_as_connack(b) } else { c08_after_connack(b, false) }
+        },
+        &|i| {
+            let (b, as_connack) = &wide_ids[i as usize];
+            json!({"phase": if *as_connack { "as-connack" } else { "after-connack" }, "bytes": mr::hex(b), "fragmented": false})
+        },
+    ));
     // what a reason byte MEANS to the application: the variant the crate decodes each byte to, against the name MQTT 5
     // gives that value (a table consistent with itself in both directions would pass every byte-level comparison)
     out.push(sweep(
